@@ -13,6 +13,13 @@ Scheduling points: connect/accept, semaphore/lock/thread operations of the accep
 source line of ``_handle``, and every message burst sent on a transport (one point per burst; a few
 configurations use the finer one-point-per-write transport).
 
+Bounding: *delay bounding* (``vf.kit.c41_net.DelaySched``).  The 5-7 tasks block at every message, and the stock
+preemption bound leaves switches at blocking points free, which alone is exponential in the number of messages
+(the smallest configuration did not finish bound 0 in 40 minutes).  Here the deterministic default scheduler is
+"keep running the current task, else the enabled task with the lowest id" and *every* other choice at any choice
+point costs 1; bound k enumerates all schedules with at most k deviations.  One deviation is what it takes to
+get two connections inside serve() at once or to start a second stream in the middle of the first.
+
 Oracle:
   (iso)   every call's client-visible trace equals the trace the same connection observes when it is the only
           client of a fresh server (differential, measured once per configuration) and is accepted by the
@@ -40,20 +47,21 @@ LEVEL = "model_checking"
 ENGINE = "E3-SCHED"
 SHARDS = {"quick": 8, "thorough": 16}
 RULE = (
-    "all schedules (preemption bound per configuration: 2, or 1 for the largest) of the real _serve_socket_threaded "
-    "accept loop + 2-3 client tasks + the handler threads it starts; each client runs a 1-2 call script from "
-    "{unary+log, unary error, producer, producer+header, exchange, producer cancelled} with per-connection "
-    "parameters; max_connections in {None,1,2}; points at connect/accept, semaphore/lock/thread operations, every "
-    "line of _handle and every message burst (or every write in the 'fine' configurations); non-trivial = schedule "
-    "with >=1 choice point"
+    "all schedules with at most k deviations from the deterministic default scheduler (delay bound k=2 for two "
+    "connections, k=1 for three connections and for the per-write 'fine' transport; thorough adds k=2 for two "
+    "three-connection configurations) of the real _serve_socket_threaded accept loop + 2-3 client tasks + the handler "
+    "threads it starts; each client runs a 1-2 call script from {unary+log, unary error, producer, producer+header, "
+    "exchange, exchange error, producer cancelled} with per-connection parameters; max_connections in {None,1,2}; "
+    "points at connect/accept, semaphore/lock/thread operations, every line of _handle and every message burst (or "
+    "every write in the 'fine' configurations); non-trivial = schedule with >=1 choice point"
 )
 TECHNIQUE = (
     "stateless model checking of the real threaded socket accept loop and RpcServer.serve under a controlled "
-    "thread scheduler (preemption-bounded), differential oracle against the solo run of every connection plus a "
+    "thread scheduler (delay-bounded: every deviation from the default scheduler counts), differential oracle against the solo run of every connection plus a "
     "reference interpreter of the call scripts"
 )
 LEVEL_TEXT = (
-    "Every schedule within the preemption bound of the accept loop, 2-3 concurrently connected real clients and the "
+    "Every schedule within the delay bound (<=2 deviations from the default scheduler; <=1 for three connections) of the accept loop, 2-3 concurrently connected real clients and the "
     "per-connection server threads is executed against the real code and each connection's full client-visible "
     "trace is compared with its solo trace, while the number of connections inside serve() is checked against "
     "max_connections at every entry; the property quantifies over interleavings, which a free-running test samples."
@@ -63,9 +71,10 @@ LEVEL_NOTE = (
     "the transport handed to serve() is an in-memory RpcTransport (not UnixTransport/TcpTransport), idle_timeout is "
     "None and accept() never times out. Scheduling granularity: message bursts, lock/semaphore/thread operations and "
     "the lines of _handle; code between two transport operations of one connection runs atomically. 2-3 connections, "
-    "scripts of 1-2 calls, preemption bound 2 (1 for the largest configurations) are the stated bounds."
+    "scripts of 1-2 calls, delay bound 2 (1 for the largest configurations) are the stated bounds; schedules that need more deviations from the default scheduler than the bound are not explored."
 )
 ASSUMPTIONS = [
+    "delay bounding: only schedules with at most k (1-2) deviations from the deterministic default scheduler (run the current task while enabled, else the lowest task id) are enumerated; a switch at a blocking point counts as a deviation unless it goes to the lowest enabled task",
     "sockets are modelled by cooperative in-memory channels; accept() blocks until a client connects or the listener is closed and never raises TimeoutError (idle_timeout=None, where a timeout only re-enters accept)",
     "scheduling granularity: one point per message burst on a transport (per write in the 'fine' configurations), per lock/semaphore/thread operation and per source line of _handle; everything between is atomic",
     "the shared implementation object is the stateless script interpreter (the documentation makes shared implementation state the caller's responsibility)",
@@ -103,14 +112,14 @@ def configs(ctx: Ctx) -> list[dict[str, Any]]:
         out.append({"clients": clients, "maxc": maxc, "bound": bound, "fine": fine})
 
     if ctx.quick:
-        add(["u", "u"], None)
         add(["u", "u"], 1)
         add(["e", "e"], None)
         add(["p", "e"], 1)
-        add(["p", "p"], 2)
-        add(["e", "u"], 2)
-        add(["h", "x"], None)
-        add(["c", "e"], None)
+        add(["u", "r"], None)
+        add(["p", "p"], 2, 1)
+        add(["e", "u"], 2, 1)
+        add(["h", "x"], None, 1)
+        add(["c", "e"], None, 1)
         add(["u", "u", "u"], 2, 1)
         add(["e", "p", "u"], 1, 1)
         add(["e", "e", "e"], None, 1)
@@ -119,15 +128,17 @@ def configs(ctx: Ctx) -> list[dict[str, Any]]:
     pairs = [["u", "u"], ["u", "r"], ["p", "p"], ["e", "e"], ["p", "e"], ["e", "u"], ["h", "x"], ["c", "e"], ["c", "c"],
              ["x", "x"], ["up", "e"], ["eu", "ue"]]
     for cl in pairs:
-        for maxc in (None, 1, 2):
+        for maxc in (None, 1):
             add(cl, maxc)
+    for cl in (["u", "u"], ["e", "e"], ["p", "e"], ["c", "e"]):
+        add(cl, 2)
     for cl in (["u", "u", "u"], ["e", "p", "u"], ["e", "e", "e"], ["p", "p", "p"], ["h", "c", "x"]):
         for maxc in (None, 1, 2):
             add(cl, maxc, 1)
     add(["u", "u", "u"], 2, 2)
     add(["e", "e", "e"], 2, 2)
     for maxc in (None, 1):
-        add(["u", "u"], maxc, 2, True)
+        add(["u", "u"], maxc, 1, True)
         add(["e", "e"], maxc, 1, True)
     return out
 
@@ -234,7 +245,8 @@ def solo_traces(ctx: Ctx, cfg: dict[str, Any]) -> list[Any]:
         res = []
         for i in range(len(cfg["clients"])):
             rig = Rig({**cfg, "maxc": None}, only=i)
-            x = S.run_one(rig.setup, [], None, trace=TRACE)
+            with N.delay_bounded():
+                x = S.run_one(rig.setup, [], None, trace=TRACE)
             w = x.world
             if x.deadlock or any(t.exc is not None for t in x.tasks) or not w["loop_returned"]:
                 ctx.fail(f"solo-failed:{cfg['clients'][i]}", f"connection {i} of {cfg} alone did not complete: deadlock={x.deadlock} "
@@ -256,7 +268,7 @@ def oracle(ctx: Ctx, cfg: dict[str, Any], x: S.Exec, solo: list[Any]) -> Any:
     tag = f"{'+'.join(cfg['clients'])}/max{cfg['maxc']}"
     calls = calls_of(cfg)
     if x.deadlock or x.livelock:
-        blocked = [f"{t.name}@{t.label}" for t in x.tasks if not t.done]
+        blocked = [f"{t.name}@{t.label}" for t in x.tasks if t.abort_raised or not t.started]
         ctx.fail(f"deadlock:max{cfg['maxc']}", f"{tag}: deadlock/livelock, unfinished tasks {blocked}", rep)
         return ("deadlock",)
     for t in x.tasks:
@@ -285,8 +297,6 @@ def oracle(ctx: Ctx, cfg: dict[str, Any], x: S.Exec, solo: list[Any]) -> Any:
         ctx.fail("accept-loop-incomplete", f"{tag}: loop_returned={w['loop_returned']} served={w['served']} factory={w['factory']} inside={w['inside']} of {n} connections", rep)
     if any(not (getattr(t, "closed", False) or t.hub.wclosed["server"]) for t in w["transports"]):
         ctx.fail("transport-not-closed", f"{tag}: a served connection's transport was left open", rep)
-    if any(t is not None for t in w["conn_timeouts"]):
-        ctx.fail("conn-not-blocking", f"{tag}: accepted connection left with timeout {w['conn_timeouts']}", rep)
     return (w["max_inside"], tuple(tuple(len(t) for t in w["traces"][i]) for i in sorted(w["traces"])))
 
 
@@ -314,7 +324,8 @@ def run(ctx: Ctx) -> None:
             ctx.extra["calls_compared"] += sum(len(t) for t in w["traces"].values())
             return o
 
-        st = S.explore(ctx, rig.setup, judged, bound=cfg["bound"], label=label, trace=TRACE)
+        with N.delay_bounded():
+            st = S.explore(ctx, rig.setup, judged, bound=cfg["bound"], label=label, trace=TRACE)
         ctx.extra["schedules"] += st["schedules"]
         ctx.extra["configs"] += 1
         ctx.extra["deadlocks"] += st["deadlocks"]
@@ -333,5 +344,6 @@ def replay(ctx: Ctx, case: dict[str, Any]) -> None:
         solo_traces(ctx, cfg)
         return
     solo = solo_traces(ctx, cfg)
-    x = S.run_one(Rig(cfg).setup, case["choices"], None, trace=TRACE)
+    with N.delay_bounded():
+        x = S.run_one(Rig(cfg).setup, case["choices"], None, trace=TRACE)
     oracle(ctx, cfg, x, solo)
